@@ -30,8 +30,10 @@ QuadBounds(b, q) ==                                          \* qtree.go:82-107
     [] q = 2 -> <<b[1], b[2], mx, my>>
     [] q = 3 -> <<mx, b[2], b[3], my>>
 Root == <<0, 0, W, W>>
-RECURSIVE BoundsOf(_)
-BoundsOf(path) == IF path = <<>> THEN Root ELSE QuadBounds(BoundsOf(SubSeq(path,1,Len(path)-1)), path[Len(path)])
+RECURSIVE BoundsIn(_,_)
+\* bounds of the node at `path` below root bounds rb (the code passes the bounds down the recursion)
+BoundsIn(rb, path) == IF path = <<>> THEN rb ELSE QuadBounds(BoundsIn(rb, SubSeq(path,1,Len(path)-1)), path[Len(path)])
+BoundsOf(path) == BoundsIn(Root, path)
 
 VARIABLES tree, rects
 qvars == <<tree, rects>>
@@ -40,33 +42,35 @@ EmptyNode == [items |-> <<>>, split |-> FALSE]
 Node(t,p) == IF p \in DOMAIN t THEN t[p] ELSE EmptyNode
 Put(t,p,n) == [q \in DOMAIN t \cup {p} |-> IF q = p THEN n ELSE t[q]]
 Touch(t,p) == IF p \in DOMAIN t THEN t ELSE Put(t,p,EmptyNode)  \* n.quads[q] = new(qNode)
-RECURSIVE Ins(_,_,_,_)
-Ins(t, rs, p, it) ==                                          \* qtree.go:16-55
-  LET n == Node(t,p) b == BoundsOf(p) IN
+RECURSIVE InsIn(_,_,_,_,_)
+InsIn(rb, t, rs, p, it) ==                                    \* qtree.go:16-55
+  LET n == Node(t,p) b == BoundsIn(rb, p) IN
   IF Len(p) = MaxDepth THEN Put(t,p,[n EXCEPT !.items = Append(@,it)])
   ELSE IF n.split THEN
      LET q == ChooseQuad(b, RectOfItem(rs,it)) IN
      IF q = -1 THEN Put(t,p,[n EXCEPT !.items = Append(@,it)])
-     ELSE Ins(Touch(t,Append(p,q)), rs, Append(p,q), it)
+     ELSE InsIn(rb, Touch(t,Append(p,q)), rs, Append(p,q), it)
   ELSE IF Len(n.items) = MaxItems THEN
      LET RECURSIVE Redis(_,_,_)
          Redis(tt, k, keep) ==
             IF k > Len(n.items) THEN Put(tt,p,[items |-> keep, split |-> TRUE])
             ELSE LET ii == n.items[k] q == ChooseQuad(b, RectOfItem(rs,ii)) IN
                  IF q = -1 THEN Redis(tt,k+1,Append(keep,ii))
-                 ELSE Redis(Ins(Touch(tt,Append(p,q)), rs, Append(p,q), ii), k+1, keep)
-     IN Ins(Redis(t,1,<<>>), rs, p, it)
+                 ELSE Redis(InsIn(rb, Touch(tt,Append(p,q)), rs, Append(p,q), ii), k+1, keep)
+     IN InsIn(rb, Redis(t,1,<<>>), rs, p, it)
   ELSE Put(t,p,[n EXCEPT !.items = Append(@,it)])
 
-RECURSIVE Search(_,_,_,_)
-Search(t, rs, p, q) ==                                        \* qtree.go:109-136, hits in callback order
-  LET n == Node(t,p) b == BoundsOf(p)
+Ins(t, rs, p, it) == InsIn(Root, t, rs, p, it)
+RECURSIVE SearchIn(_,_,_,_,_)
+SearchIn(rb, t, rs, p, q) ==                                  \* qtree.go:109-136, hits in callback order
+  LET n == Node(t,p) b == BoundsIn(rb, p)
       here == SelectSeq(n.items, LAMBDA i : RectMeets(RectOfItem(rs,i), q))
       RECURSIVE Kids(_)
       Kids(k) == IF k > 3 THEN <<>> ELSE
                  (IF n.split /\ Append(p,k) \in DOMAIN t /\ RectMeets(QuadBounds(b,k), q)
-                  THEN Search(t,rs,Append(p,k),q) ELSE <<>>) \o Kids(k+1)
+                  THEN SearchIn(rb,t,rs,Append(p,k),q) ELSE <<>>) \o Kids(k+1)
   IN here \o Kids(0)
+Search(t, rs, p, q) == SearchIn(Root, t, rs, p, q)
 
 \* ---- variable-width item encoding (qtree.go:137-172), radix B instead of 256
 NumBytes(n) == IF n <= B - 1 THEN 1 ELSE IF n <= B*B - 1 THEN 2 ELSE 4
@@ -75,16 +79,17 @@ MaxOf(s, init) == LET RECURSIVE F(_,_) F(i,m) == IF i > Len(s) THEN m ELSE F(i+1
 \* what qNode.compress stores for a node and qCompressSearch reads back
 Stored(n) == LET ib == MaxOf([i \in 1..Len(n.items) |-> NumBytes(n.items[i])], NumBytes(Len(n.items)))   \* qtree.go:174-180
              IN [ib |-> ib, count |-> Len(n.items) % Pow(ib), items |-> [i \in 1..Len(n.items) |-> n.items[i] % Pow(ib)]]
-RECURSIVE SearchC(_,_,_,_)
-SearchC(t, rs, p, q) ==                                       \* qtree.go:215-257
-  LET n == Node(t,p) b == BoundsOf(p) st == Stored(n)
+RECURSIVE SearchCIn(_,_,_,_,_)
+SearchCIn(rb, t, rs, p, q) ==                                 \* qtree.go:215-257
+  LET n == Node(t,p) b == BoundsIn(rb, p) st == Stored(n)
       its == SubSeq(st.items, 1, st.count)
       here == SelectSeq(its, LAMBDA i : RectMeets(RectOfItem(rs,i), q))
       RECURSIVE Kids(_)
       Kids(k) == IF k > 3 THEN <<>> ELSE
                  (IF n.split /\ Append(p,k) \in DOMAIN t /\ RectMeets(QuadBounds(b,k), q)
-                  THEN SearchC(t,rs,Append(p,k),q) ELSE <<>>) \o Kids(k+1)
+                  THEN SearchCIn(rb,t,rs,Append(p,k),q) ELSE <<>>) \o Kids(k+1)
   IN here \o Kids(0)
+SearchC(t, rs, p, q) == SearchCIn(Root, t, rs, p, q)
 
 QInit == tree = [p \in {<<>>} |-> EmptyNode] /\ rects = <<>>
 Insert == /\ Len(rects) < MaxN
